@@ -39,11 +39,11 @@ class SortedMap(MutableMapping[K, T], Generic[K, T]):
         self.values_storage = []
 
         if init_values is not None:
-            if isinstance(init_values, Mapping):
-                self.keys_storage = list(init_values.keys())
-                values = list(init_values.values())
-            else:
-                self.keys_storage, values = zip(*init_values)
+            if not isinstance(init_values, Mapping):
+                # the same semantics as dict(): empty input is fine and later pairs win
+                init_values = dict(init_values)
+            self.keys_storage = list(init_values.keys())
+            values = list(init_values.values())
             # sort keys
             sorted_indices = arg_sort(self.keys_storage)
 
